@@ -18,6 +18,7 @@ import time
 import shutil
 import importlib
 import multiprocessing as mp
+import multiprocessing.pool
 
 HERE = os.path.dirname(os.path.abspath(__file__))
 VERIF = os.path.dirname(HERE)
@@ -103,9 +104,8 @@ def main():
 
     procs = args.procs or (16 if tier == "thorough" else 8)
     procs = max(1, min(procs, len(tasks)))
-    ctx = mp.get_context("fork")
     results = []
-    with ctx.Pool(procs, maxtasksperchild=1) as pool:
+    with NonDaemonPool(procs, maxtasksperchild=1) as pool:
         handles = []
         for kind, idx, a in tasks:
             fn = {"clause": core.run_clause_shard, "enum": core.run_enum_chunk, "replays": core.run_replays_worker}[kind]
@@ -234,6 +234,28 @@ def main():
         core.real_print("HARNESS-ERROR property=%s vacuous clauses (too few non-trivial cases): %s" % (prop, vacuous))
         return 2
     return 0
+
+
+class _NonDaemonProcess(mp.get_context("fork").Process):
+    # joblib refuses to start worker processes from daemonic children (and silently runs sequentially); the code under
+    # test must see an ordinary process
+    @property
+    def daemon(self):
+        return False
+
+    @daemon.setter
+    def daemon(self, value):
+        pass
+
+
+class _NonDaemonContext(type(mp.get_context("fork"))):
+    Process = _NonDaemonProcess
+
+
+class NonDaemonPool(mp.pool.Pool):
+    def __init__(self, *a, **kw):
+        kw["context"] = _NonDaemonContext()
+        super().__init__(*a, **kw)
 
 
 def _min_nt(mod, name):
